@@ -18,11 +18,19 @@ is read back from every features reply (per port: config bits, link state as las
 of the description against a pristine twin switch) and through its effects on port counters (packet-out to a port /
 FLOOD / ALL).  The port-mod lattice (`pm_lattice`) is run in three read-back frames, a port family in all sequences
 (see `histories`).  Histories of <=2 requests and the long histories are also run with boundary xids (0, 0xffffffff...).
+
+Round 9 families.  Long action lists (`BIG_ACTS`): flow-mods whose statistics entries just fit / just exceed one 64 KB
+statistics reply; multi-part replies (OFPSF_REPLY_MORE) are coalesced into one logical reply (`coalesce`).  Messages with
+another header version (`VERSIONS` x `VERSION_BASES`, see `version_histories`) and well-formed messages of the types only a
+switch sends ("s2c-*").  Switch configurations (`configs`, `check_config`): the same requests against switches set up
+through the switch's own API with other port counts / numbers / names / ways of making and removing ports / constructor
+parameters; the reference is the configuration.
 """
 import itertools, struct
 from mc.engine import pmap, split
 from mc.report import Report
 from mc.refs import ofwire as W
+from mc.refs import ofwire_s2c as S
 
 PID = "C13"
 FRAME = bytes.fromhex("0000000000020000000000010800") + b"\x45\x00\x00\x1c" + b"\0" * 24   # 42-byte frame
@@ -35,6 +43,10 @@ BAD_BUFFER = 77            # never handed out: the switch has 4 buffers
 CAPACITY = 2               # flow table capacity of the switch under test (see _stack)
 PORTS = (1, 2, 3, 4)       # ports of the switch under test (see _stack)
 EDGE_XIDS = (0, 0xffffffff, 0x80000000, 0x7fffffff, 1)       # boundary transaction ids (cycled; repeats occur)
+MAX_MSG = 0xffff           # largest OpenFlow message (16-bit length field)
+BIG_ACTS = (4084, 4085, 8179, 8180)      # 12 + 2 * (88 + 8n) and 12 + (88 + 8n) cross 65535 between these values
+VERSIONS = (0, 2, 4, 0x81, 0xff)         # header versions other than 1: none, the next ones, high bit, all ones
+VERSION_BASES = ("echo-empty", "features", "barrier", "stats-desc", "flow-add", "hello", "unknown-type")
 
 PC_BITS = (("PORT_DOWN", W.OFPPC_PORT_DOWN), ("NO_STP", W.OFPPC_NO_STP), ("NO_RECV", W.OFPPC_NO_RECV),
            ("NO_RECV_STP", W.OFPPC_NO_RECV_STP), ("NO_FLOOD", W.OFPPC_NO_FLOOD), ("NO_FWD", W.OFPPC_NO_FWD),
@@ -80,24 +92,28 @@ class Reqs (dict):
 
 
 def keyname (n):
-  """Request class used in violation keys: the request name, for the port-mod lattice its (port, hw_addr) class."""
+  """Request class used in violation keys: the request name, for the port-mod lattice its (port, hw_addr) class, for the
+  wrong-version / switch-to-controller-type / long-action-list families the family."""
   if n.startswith("pm-"):
     _, port, hw, c, m = n.split("-")
     return "port-mod[port-%s,hw-%s]" % ("present" if int(port) in PORTS else "absent", hw)
+  if n.startswith("version-"): return "wrong-version"
+  if n.startswith("s2c-"): return "switch-to-controller-type"
+  if n.startswith("flow-add-") and n.endswith("-actions"): return "flow-add-long-action-list"
   return KEYCLASS.get(n, n)
 
 KEYCLASS = {"port-mod-2-zero-hw": "port-mod[port-present,hw-zero]", "port-mod-2-other-hw": "port-mod[port-present,hw-other]"}
 
 
-def flow_req (cmd, key, out=None, flags=0, buf=None):
-  """A flow-mod: command x match (in1/in2/in3/all) x one output action (or none) x flags x buffer_id kind
+def flow_req (cmd, key, out=None, flags=0, buf=None, nact=1):
+  """A flow-mod: command x match (in1/in2/in3/all) x `nact` output actions to one port (or none) x flags x buffer_id kind
   (None = no buffer, 'bad' = an id the switch never hands out, 'zero' = id 0, 'last' = the id of the most recent packet-in).
   Returns (builder, expectation descriptor); the answer is worked out by Model.flow_step."""
-  acts = W.a_output(out) if out is not None else b""
+  acts = W.a_output(out) * nact if out is not None else b""
   def build (x, b=1):
     bid = W.NO_BUFFER if buf is None else (BAD_BUFFER if buf == "bad" else 0 if buf == "zero" else b)
     return W.flow_mod(x, FM_MATCH[key], cmd, acts, flags=flags, buffer_id=bid)
-  return build, ("flow", cmd, key, out, flags, buf)
+  return build, ("flow", cmd, key, out, flags, buf, nact if out is not None else 0)
 
 
 def requests ():
@@ -194,6 +210,32 @@ def requests ():
   a(("hello", lambda x: W.hello(x), ("none",)))
   a(("echo-reply", lambda x: W.echo_reply(x, b"zz"), ("none",)))
   a(("unknown-type", lambda x: W.msg(0x30, x, b"\0" * 8), ("error", W.OFPET_BAD_REQUEST, W.OFPBRC_BAD_TYPE)))
+  # flow-mods with long action lists (n output actions to port 2): the boundary values at which the statistics of two
+  # entries (4084 | 4085) and of one entry (8179 | 8180) stop fitting into a single 64 KB statistics reply
+  for nact in BIG_ACTS:
+    a(("flow-add-%d-actions" % nact,) + flow_req(W.OFPFC_ADD, "in1", 2, nact=nact))
+    a(("flow-add-other-%d-actions" % nact,) + flow_req(W.OFPFC_ADD, "in2", 2, nact=nact))
+  # well-formed messages of the types only a switch sends: a switch does not support them as requests (OFPBRC_BAD_TYPE:
+  # "ofp_header.type not supported"); an error message is answered with nothing or with that error
+  port = W.phy_port(1, MAC1(9, 1), b"p1")
+  for tn, build in (("features-reply", lambda x: S.features_reply(x, 9, ports=(port,))),
+                    ("features-reply-no-ports", lambda x: S.features_reply(x, 9)),
+                    ("get-config-reply", lambda x: S.get_config_reply(x)),
+                    ("packet-in", lambda x: S.packet_in(x, FRAME)),
+                    ("flow-removed", lambda x: S.flow_removed(x, W.match())),
+                    ("port-status", lambda x: S.port_status(x, W.OFPPR_MODIFY, port)),
+                    ("stats-reply-desc", lambda x: S.stats_reply(x, W.OFPST_DESC, S.desc_stats_body())),
+                    ("stats-reply-flow-empty", lambda x: S.stats_reply(x, W.OFPST_FLOW)),
+                    ("barrier-reply", lambda x: S.barrier_reply(x)),
+                    ("queue-get-config-reply", lambda x: W.msg(W.QUEUE_GET_CONFIG_REPLY, x, struct.pack("!H6x", 1)))):
+    a(("s2c-" + tn, build, ("error", W.OFPET_BAD_REQUEST, W.OFPBRC_BAD_TYPE)))
+  a(("error-from-controller", lambda x: S.error(x, W.OFPET_BAD_REQUEST, W.OFPBRC_BAD_TYPE, W.echo_request(7)), ("maybe", W.OFPET_BAD_REQUEST)))
+  # requests of the alphabet with another version in the header: one error (OFPBRC_BAD_VERSION; at the start of a
+  # connection also OFPET_HELLO_FAILED) or the connection is given up
+  base = dict((r[0], r[1]) for r in R)
+  for v in VERSIONS:
+    for bn in VERSION_BASES:
+      a(("version-%x-%s" % (v, bn), (lambda x, v=v, f=base[bn]: bytes([v]) + f(x)[1:]), ("version",)))
   return R
 
 
@@ -209,7 +251,8 @@ class Model (object):
     self.pcfg = dict((p, d["config"]) for p, d in self.base.get("ports", {}).items())
     self.pstate = dict((p, d["state"]) for p, d in self.base.get("ports", {}).items())
     self.pknown = dict((p, 0xffffffff) for p in self.pcfg)
-    self.flows = {}             # "in1"/"in2"/"in3" -> port its single output action names
+    self.flows = {}             # "in1"/"in2"/"in3" -> port its output actions name
+    self.nact = {}              # "in1"/"in2"/"in3" -> number of (8-byte output) actions of the entry
     self.vague = False          # table contents not determined (a flow-mod was answered with a buffer error)
     self.tx = {1: 0, 2: 0, 3: 0, 4: 0}
     self.lookups = 0; self.matched = 0          # table counters (packets submitted to the table)
@@ -234,14 +277,22 @@ class Model (object):
     if port not in self.pcfg or (self.pknown[port] & bits) != bits: return None
     return self.pcfg[port] & bits
 
-  def sent (self, port):
-    """A packet is output to a physical port: transmitted (and counted) unless the port is down or does not forward."""
+  def sent (self, port, times=1):
+    """A packet is output to a physical port (`times` output actions): transmitted (and counted) unless the port is down
+    or does not forward."""
     if self.tx is None: return
     blocked = self.pbits(port, W.OFPPC_PORT_DOWN | W.OFPPC_NO_FWD)
     if blocked is None: self.tx = None
     elif blocked: pass
     elif self.pstate.get(port, 0) & W.OFPPS_LINK_DOWN: self.tx = None       # link announced down on a port configured up
-    else: self.tx[port] += 1
+    else: self.tx[port] += times
+
+  def flow_stats_size (self, pred=lambda k, o: True):
+    """Bytes of a single flow-stats reply listing the entries selected by `pred` (None: table contents not determined),
+    and the size of the largest entry: ofp_stats_reply header 12, ofp_flow_stats 88 + 8 per output action."""
+    if self.vague: return None, None
+    sizes = [88 + 8 * self.nact.get(k, 0) for k, o in self.flows.items() if pred(k, o)]
+    return 12 + sum(sizes), max(sizes or [0])
 
   def fan_out (self, flood):
     """packet-out to OFPP_FLOOD / OFPP_ALL with in_port NONE: every port, FLOOD without the NO_FLOOD ones."""
@@ -285,7 +336,7 @@ class Model (object):
       self.matched = None; self.tx = None
     elif key in self.flows:
       if self.matched is not None: self.matched += 1
-      self.sent(self.flows[key])
+      self.sent(self.flows[key], self.nact.get(key, 1))
 
   def buffer_state (self, b_id):
     if b_id not in self.issued: return "unknown"
@@ -298,15 +349,15 @@ class Model (object):
     self.limbo.add(b_id)
     if out is not None: self.tx = None
 
-  def buffer_used (self, b_id, out):
+  def buffer_used (self, b_id, out, nact=1):
     self.used.add(b_id)
-    if out is not None: self.sent(out)
+    if out is not None: self.sent(out, nact)
     # whether a buffered packet handed to a flow-mod counts as a table lookup is not specified
     self.lookups = None; self.matched = None
 
   def flow_step (self, desc, b_id):
     """Expected answer to a flow-mod and its effect: returns (expectation, effect(replies))."""
-    _, cmd, key, out, flags, buf = desc
+    _, cmd, key, out, flags, buf, nact = desc
     FMF, BR = W.OFPET_FLOW_MOD_FAILED, W.OFPET_BAD_REQUEST
     bs = None if buf is None else self.buffer_state(b_id)
     buf_err = {"unknown": (BR, W.OFPBRC_BUFFER_UNKNOWN), "empty": (BR, W.OFPBRC_BUFFER_EMPTY), "limbo": (BR, None)}.get(bs)
@@ -319,8 +370,8 @@ class Model (object):
       rej = (FMF, None)                     # emergency entries are not supported; the specification names no single code
     elif cmd in (W.OFPFC_DELETE, W.OFPFC_DELETE_STRICT):
       def change ():
-        if key == "all": self.flows.clear(); self.vague = False
-        else: self.flows.pop(key, None)
+        if key == "all": self.flows.clear(); self.nact.clear(); self.vague = False
+        else: self.flows.pop(key, None); self.nact.pop(key, None)
       if bs is None:
         return ("none",), lambda replies: change()
       # buffer_id is "not meaningful for OFPFC_DELETE*": silence and a BAD_REQUEST error are both fine
@@ -343,7 +394,7 @@ class Model (object):
       elif as_add and key not in self.flows and len(self.flows) >= CAPACITY:
         rej = (FMF, W.OFPFMFC_ALL_TABLES_FULL)
       else:
-        def change (): self.flows[key] = out
+        def change (): self.flows[key] = out; self.nact[key] = nact
     if rej is not None:
       if bs is None: return ("error",) + rej, nothing
       if bs == "ok":
@@ -352,7 +403,11 @@ class Model (object):
       # refused for two reasons: either error (or one of each) answers the request
       return ("errors", (rej, buf_err)), nothing
     # carried out
-    if bs is None: return ("none",), lambda replies: change()
+    if bs is None:
+      if nact > 1:
+        # a switch may refuse an action list it cannot handle (OFPBAC_TOO_MANY); then nothing is installed
+        return ("maybe", W.OFPET_BAD_ACTION, W.OFPBAC_TOO_MANY), lambda replies: None if replies else change()
+      return ("none",), lambda replies: change()
     if bs in ("unknown", "empty"):
       # the error is specified; whether the table was changed before the buffer was looked at is not
       def eff (replies): self.vague = True
@@ -365,7 +420,7 @@ class Model (object):
         self.lookups = None; self.matched = None
       return ("maybe", BR), eff
     def eff (replies):
-      change(); self.buffer_used(b_id, out)
+      change(); self.buffer_used(b_id, out, nact)
     return ("none",), eff
 
 
@@ -376,10 +431,34 @@ def xids_for (n, scheme=None):
 
 def norm_stream (stream):
   """The reply stream with the xids of asynchronous messages (port-status: taken from a process-wide counter by pox, not
-  specified by OpenFlow) blanked, so that streams of different runs can be compared."""
+  specified by OpenFlow) and of HELLO_FAILED errors (version negotiation: not an answer to a request) blanked, so that
+  streams of different runs can be compared."""
   if not stream: return stream
   msgs, rest = W.split(stream)
-  return b"".join(m[:4] + b"\0\0\0\0" + m[8:] if m[1] == W.PORT_STATUS else m for m in msgs) + rest
+  free = lambda m: m[1] == W.PORT_STATUS or (m[1] == W.ERROR and m[8:10] == b"\0\0")
+  return b"".join(m[:4] + b"\0\0\0\0" + m[8:] if free(m) else m for m in msgs) + rest
+
+
+def coalesce (replies):
+  """The parts of a multi-part statistics reply (same xid and statistics type, OFPSF_REPLY_MORE set on every part but the
+  last) count as ONE reply whose body is the concatenation of the parts."""
+  out = []
+  for r in replies:
+    prev = out[-1] if out else None
+    if (prev is not None and prev["type"] == W.STATS_REPLY and r["type"] == W.STATS_REPLY and (prev["flags"] & W.OFPSF_REPLY_MORE)
+        and r["xid"] == prev["xid"] and r["stype"] == prev["stype"]):
+      m = dict(prev); m["flags"] = r["flags"]; m["body"] = prev["body"] + r["body"]; m["parts"] = prev.get("parts", 1) + 1
+      for k in ("flows", "tables", "ports", "queues"):
+        if k in prev or k in r: m[k] = list(prev.get(k, [])) + list(r.get(k, []))
+      if "wellformed" in prev or "wellformed" in r: m["wellformed"] = prev.get("wellformed", True) and r.get("wellformed", True)
+      out[-1] = m
+    else:
+      out.append(r)
+  return out
+
+
+FLOW_STATS_SCOPE = {"stats-flow": lambda k, o: True, "stats-flow-in2": lambda k, o: k == "in2", "stats-flow-out2": lambda k, o: o == 2,
+                    "stats-flow-table1": lambda k, o: False}
 
 
 def check_history (names, reqs, rep, stack_factory, batch=False, raws=None, xids=None):
@@ -396,7 +475,9 @@ def check_history (names, reqs, rep, stack_factory, batch=False, raws=None, xids
     try:
       for raw in raws:
         k = 4 if len(raw) <= 12 else len(raw) // 2
-        st.feed(raw[:k]); st.feed(raw[k:])
+        for seg in (raw[:k], raw[k:]):
+          if st.worker.closed or st.worker._shutdown_send: break          # nothing is delivered to a closed connection
+          st.feed(seg)
     except Exception as e:
       return [("%s:%s:escaped-exception" % (PID, keyname(names[-1])), "exception escaped the switch's read loop: %s: %s" % (type(e).__name__, e))], None
     return [], norm_stream(st.drain())
@@ -410,6 +491,7 @@ def check_history (names, reqs, rep, stack_factory, batch=False, raws=None, xids
   total = b""
   BR = W.OFPET_BAD_REQUEST
   check_history.refused = False
+  settled = False             # has the switch taken a version-1 message as a request yet?
   for i, (n, x, raw) in enumerate(zip(names, xids, raws)):
     exp = reqs[n][1]
     post = lambda replies, n=n: model.apply(n)
@@ -434,6 +516,19 @@ def check_history (names, reqs, rep, stack_factory, batch=False, raws=None, xids
       exp, post = model.flow_step(exp, b_id)
     elif exp[0] == "portmod":
       exp, post = model.port_step(exp)
+    elif exp[0] == "version":
+      # the start of a connection is where versions are negotiated: HELLO_FAILED (the switch may then close) or BAD_VERSION;
+      # once the switch has taken a version-1 message as a request (not refused it as a bad request) the version of the
+      # connection is settled and a message with another one is a bad request
+      post = lambda replies: None
+      exp = ("version", settled)
+    over = ""
+    if n in FLOW_STATS_SCOPE:
+      # a statistics reply that does not fit one message comes in parts; an entry that fits no message at all: any answer
+      need, largest = model.flow_stats_size(FLOW_STATS_SCOPE[n])
+      if need is not None and need > MAX_MSG:
+        over = "reply"
+        if 12 + largest > MAX_MSG: exp = ("answer",); over = "entry"
     n = keyname(n)          # from here on the name is only used in keys and texts
     try:
       st.feed(raw)
@@ -446,17 +541,37 @@ def check_history (names, reqs, rep, stack_factory, batch=False, raws=None, xids
     if rest:
       bad.append(("%s:%s:garbled-output" % (PID, n), "switch wrote bytes that do not frame as OpenFlow messages")); break
     ds = [W.decode(m) for m in msgs]
-    replies = [d for d in ds if d["type"] not in W.ASYNC_TYPES]
+    replies = coalesce([d for d in ds if d["type"] not in W.ASYNC_TYPES])
     if any(d["type"] == W.ERROR for d in replies): check_history.refused = True
+    if raw[0] == W.VERSION and not any(d["type"] == W.ERROR and d["etype"] == BR for d in replies): settled = True
     for d in ds:
       if d["type"] == W.PACKET_IN and d.get("buffer_id", W.NO_BUFFER) != W.NO_BUFFER:
         model.issued.add(d["buffer_id"]); model.used.discard(d["buffer_id"]); model.limbo.discard(d["buffer_id"])
         model.last_buf = d["buffer_id"]
       elif d["type"] == W.PORT_STATUS and d["desc"]["port_no"] in model.pstate:
         model.pstate[d["desc"]["port_no"]] = d["desc"]["state"]          # the switch announces a port's new state
-    if st.worker.closed or st.worker._shutdown_send:
-      bad.append(("%s:%s:connection-dropped" % (PID, n), "switch closed the connection after %s" % n)); break
     kind = exp[0]
+    dropped = st.worker.closed or st.worker._shutdown_send
+    if kind == "version":
+      # a message with another version is not one of the messages the statement quantifies over (the switch cannot even
+      # rely on its framing): it is either answered with exactly one error - BAD_REQUEST/BAD_VERSION with the message's xid
+      # and header; while the version is not settled also HELLO_FAILED/INCOMPATIBLE (xid and data are the switch's choice) -
+      # or the switch gives the connection up (whether the close is carried out is C10's business).  Not silence on a
+      # connection that stays open.
+      allowed = ((BR, W.OFPBRC_BAD_VERSION),) + (() if exp[1] else ((W.OFPET_HELLO_FAILED, 0),))
+      ok = [r for r in replies if r["type"] == W.ERROR and (r["etype"], r["code"]) in allowed]
+      if not replies:
+        if not dropped:
+          bad.append(("%s:%s:no-reply" % (PID, n), "a message with another version (xid %#x) produced no error and the connection was not given up" % x))
+      elif len(replies) != 1 or not ok:
+        bad.append(("%s:%s:wrong-reply" % (PID, n), "a message with another version answered with %s, version %s"
+                    % ([(r["t"], r.get("etype"), r.get("code")) for r in replies], "settled" if exp[1] else "not settled")))
+      elif ok[0]["etype"] == BR and (ok[0]["xid"] != x or ok[0]["data"][:8] != raw[:8]):
+        bad.append(("%s:%s:wrong-xid" % (PID, n), "BAD_VERSION error does not carry the xid / header of the refused message"))
+      if dropped: break
+      continue
+    if dropped:
+      bad.append(("%s:%s:connection-dropped" % (PID, n), "switch closed the connection after %s" % n)); break
     if kind == "none":
       if replies:
         bad.append(("%s:%s:unexpected-reply" % (PID, n), "%s needs no reply but the switch sent %s" % (n, [r["t"] for r in replies])))
@@ -464,7 +579,9 @@ def check_history (names, reqs, rep, stack_factory, batch=False, raws=None, xids
       continue
     most = len(exp[1]) if kind == "errors" else 1
     if len(replies) == 0 and kind not in ("maybe", "any"):
-      bad.append(("%s:%s:no-reply" % (PID, n), "%s (xid %#x) produced neither a reply nor an error" % (n, x)))
+      if over: bad.append(("%s:stats-%s-over-64K:no-reply" % (PID, over), "%s (xid %#x) produced neither a (multi-part) reply nor an error: "
+                           "the entries to report need %d bytes, the largest %d" % (n, x, need - 12, largest)))
+      else: bad.append(("%s:%s:no-reply" % (PID, n), "%s (xid %#x) produced neither a reply nor an error" % (n, x)))
       post(replies); continue
     if len(replies) > most:
       bad.append(("%s:%s:multiple-replies" % (PID, n), "%s produced %d messages: %s" % (n, len(replies), [r["t"] for r in replies])))
@@ -474,6 +591,8 @@ def check_history (names, reqs, rep, stack_factory, batch=False, raws=None, xids
       if r["xid"] != x:
         bad.append(("%s:%s:wrong-xid" % (PID, n), "%s sent with xid %#x answered with xid %#x" % (n, x, r["xid"])))
     r = replies[0] if replies else None
+    if r is not None and r["type"] == W.STATS_REPLY and (r["flags"] & W.OFPSF_REPLY_MORE):
+      bad.append(("%s:%s:stats-more-without-last-part" % (PID, n), "the last statistics reply for %s has OFPSF_REPLY_MORE set" % n))
     if kind in ("answer", "any") or r is None:
       pass        # any single reply or error will do (specification names no code)
     elif kind == "reply":
@@ -488,7 +607,7 @@ def check_history (names, reqs, rep, stack_factory, batch=False, raws=None, xids
         bad.extend(check_body(n, r, raw, model, st))
     else:
       # error | maybe (an error of the given type, if anything) | errors (one error per reason, at least one)
-      allowed = [tuple(exp[1:])] if kind == "error" else [(exp[1], None)] if kind == "maybe" else list(exp[1])
+      allowed = [tuple(exp[1:])] if kind == "error" else [(exp[1], exp[2] if len(exp) > 2 else None)] if kind == "maybe" else list(exp[1])
       for r in replies:
         if r["type"] != W.ERROR:
           bad.append(("%s:%s:wrong-reply-type" % (PID, n), "%s must be refused with an error, got %s" % (n, r["t"])))
@@ -606,6 +725,244 @@ def _stack ():
   return SwitchStack(dpid=1, ports=4, max_buffers=4, clock=VClock(), max_entries=CAPACITY)
 
 
+# ---- switch configurations ---------------------------------------------------------------------------------------------
+# The same requests against switches that were set up differently through the switch's public API: how many ports, which
+# port numbers, how the ports were made (ports=N | generate_port | an ofp_phy_port built by the caller | add_port(port) and
+# add_port(number) on the connected switch | delete_port), which names they carry, and the constructor parameters that
+# replies report.  The reference is the configuration itself.
+CFG_BASE = (("dpid", 1), ("max_buffers", 4), ("max_entries", CAPACITY), ("miss_send_len", 128))
+CFG_PORT_NOS = (1, 2, 255, 256, 999, 1000, 9999, 10000, 0xff00, 0xfffe)        # digits 1..5, OFPP_MAX, OFPP_LOCAL
+CFG_NAMES = {"generated": None, "ascii-1": "a", "ascii-15": "port-name-15-ch", "ascii-16": "port-name-16-chr",
+             # names with characters outside ASCII (U+00FC): 15 / 16 / 8 / 16 characters = 16 / 17 / 16 / 32 bytes of UTF-8
+             "nonascii-1-of-15": "Z\u00fcrich-uplink-1", "nonascii-1-of-16": "Z\u00fcrich-uplink-01",
+             "nonascii-8": "\u00fc" * 8, "nonascii-16": "\u00fc" * 16}
+CFG_COUNTS = (0, 1, 4, 48, 630, 631, 999, 1000)          # 12 + 104 n (port statistics) crosses 65535 between 630 and 631
+CFG_PARAMS = (("dpid", (0xffff, 0x10000, 0xffffff, 2**48 - 1, 2**48, 2**64 - 1)), ("max_buffers", (0, 1, 0xffffffff)),
+              ("max_entries", (1, 0x7fffffff, 0xffffffff)), ("miss_send_len", (0, 1, 0xffff)))
+CFG_HW = lambda no: bytes((2, 0xc0, 0xff, 0xee, no >> 8, no & 0xff))
+
+
+def configs (cfg):
+  """(route, port_no or count, name kind, parameter deviations)"""
+  out = [("count", n, "generated", ()) for n in CFG_COUNTS]
+  for no in CFG_PORT_NOS:
+    for nk in CFG_NAMES:
+      out.append(("generate_port", no, nk, ()))
+      if nk != "generated": out.append(("ofp_phy_port", no, nk, ()))
+      out.append(("add_port(port)", no, nk, ()))
+    out.append(("add_port(int)", no, "generated", ()))
+  for no in (1, 2, 4):
+    out += [("delete_port(int)", no, "generated", ()), ("delete_port(port)", no, "generated", ()), ("delete+add", no, "generated", ())]
+  for k, vs in CFG_PARAMS:
+    out += [("count", 4, "generated", ((k, v),)) for v in vs]
+  return out
+
+
+def config_class (desc):
+  route, no, nk, params = desc
+  if params: return "param-" + params[0][0]
+  if route in ("count", "generate_port", "ofp_phy_port", "add_port(port)"): return "%s-name" % nk
+  if route.startswith("delete_port"): return "delete_port"
+  return route
+
+
+def _config_stack (desc):
+  """Build the switch of a configuration; returns (stack, expectation, exception raised by the switch's API or None).
+  expectation: dict(dpid, max_buffers, max_entries, miss_send_len, ports {port_no: (name or None, hw_addr or None)},
+  subject = the port the configuration is about, unsure = ports whose existence is not judged)."""
+  from mc.env import SwitchStack, VClock
+  import pox.datapaths.switch as sw
+  import pox.openflow.libopenflow_01 as of
+  from pox.lib.addresses import EthAddr
+  route, no, nk, params = desc
+  kw = dict(CFG_BASE); kw.update(params)
+  dpid = kw.pop("dpid")
+  exp = dict(kw, dpid=dpid, ports={}, subject=None, unsure=set())
+  name = CFG_NAMES[nk]
+  other = 3 if no != 3 else 5
+  probe = sw.SoftwareSwitch(dpid, ports=0)
+  def made (how):
+    if how == "ofp_phy_port":
+      return of.ofp_phy_port(port_no=no, hw_addr=EthAddr(CFG_HW(no)), name=name), (name, CFG_HW(no))
+    return (probe.generate_port(no) if name is None else probe.generate_port(no, name=name)), (name, None)
+  api = None
+  if route == "count":
+    st = SwitchStack(dpid=dpid, ports=no, clock=VClock(), **kw)
+    exp["ports"] = dict((i, (None, None)) for i in range(1, no + 1))
+    exp["subject"] = no if no else None
+  elif route in ("generate_port", "ofp_phy_port"):
+    port, what = made(route)
+    st = SwitchStack(dpid=dpid, ports=[probe.generate_port(other), port], clock=VClock(), **kw)
+    exp["ports"] = {other: (None, None), no: what}; exp["subject"] = no
+  elif route in ("add_port(port)", "add_port(int)"):
+    st = SwitchStack(dpid=dpid, ports=[probe.generate_port(other)], clock=VClock(), **kw)
+    st.feed(W.hello(0)); st.drain()
+    if route == "add_port(int)": arg, what = no, (None, None)
+    else: arg, what = made("generate_port")
+    exp["ports"] = {other: (None, None), no: what}; exp["subject"] = no
+    try: st.sw.add_port(arg)
+    except Exception as e:
+      api = "%s: %s" % (type(e).__name__, e); exp["unsure"].add(no)          # refused by the API: the port may or may not exist
+  else:
+    st = SwitchStack(dpid=dpid, ports=4, clock=VClock(), **kw)
+    st.feed(W.hello(0)); st.drain()
+    exp["ports"] = dict((i, (None, None)) for i in PORTS); exp["subject"] = other if other in PORTS else 3
+    try:
+      st.sw.delete_port(st.sw.ports[no] if route == "delete_port(port)" else no)
+      del exp["ports"][no]
+      if route == "delete+add":
+        st.sw.add_port(st.sw.generate_port(no)); exp["ports"][no] = (None, None); exp["subject"] = no
+    except Exception as e:
+      api = "%s: %s" % (type(e).__name__, e); exp["unsure"].add(no)
+  return st, exp, api
+
+
+def name_field_ok (field, name):
+  """ofp_phy_port.name is a null-terminated string in 16 bytes; the encoding of characters outside ASCII is not specified:
+  the name in Latin-1 or UTF-8, whole or clipped to the field."""
+  for enc in ("latin-1", "utf-8"):
+    b = name.encode(enc)
+    if field in (b[:16], b[:15]): return True
+  return False
+
+
+def check_config (desc, rep):
+  """One configuration: the requests one by one, then the same bytes in one read.  Returns (bad, outcome)."""
+  cls = config_class(desc)
+  bad = []
+  def v (req, clause, what): bad.append(("%s:config:%s:%s:%s" % (PID, req, clause, cls), "%r: %s" % (desc, what)))
+  try:
+    st, exp, api = _config_stack(desc)
+  except Exception as e:
+    v("setup", "switch-not-built:%s" % type(e).__name__, "the switch could not be built: %s" % e)
+    return bad, ("not-built",)
+  want_ports = set(exp["ports"])
+  def ports_ok (got):
+    return len(got) == len(set(got)) and set(got) - exp["unsure"] == want_ports - exp["unsure"]
+  subj = exp["subject"]
+  setup = st.drain()          # port-status messages of the set-up
+  if W.split(setup)[1]: v("setup", "garbled-output", "the switch wrote bytes that do not frame as OpenFlow messages while being set up")
+  total = b""
+  state = dict(hw=None, features=0)
+  plan = [("features", lambda x: W.features_request(x), W.FEATURES_REPLY, None),
+          ("get-config", lambda x: W.get_config_request(x), W.GET_CONFIG_REPLY, None),
+          ("stats-desc", lambda x: W.stats_request(x, W.OFPST_DESC), W.STATS_REPLY, W.OFPST_DESC),
+          ("stats-table", lambda x: W.stats_request(x, W.OFPST_TABLE), W.STATS_REPLY, W.OFPST_TABLE),
+          ("stats-port-all", lambda x: W.stats_request(x, W.OFPST_PORT, W.port_stats_body(W.OFPP_NONE)), W.STATS_REPLY, W.OFPST_PORT)]
+  if subj is not None and subj not in exp["unsure"]:
+    plan += [("stats-port-one", lambda x: W.stats_request(x, W.OFPST_PORT, W.port_stats_body(subj)), W.STATS_REPLY, W.OFPST_PORT),
+             ("port-mod", lambda x: W.port_mod(x, subj, state["hw"], W.OFPPC_NO_FLOOD, W.OFPPC_NO_FLOOD), None, None),
+             ("features", lambda x: W.features_request(x), W.FEATURES_REPLY, None)]
+  plan += [("barrier", lambda x: W.barrier_request(x), W.BARRIER_REPLY, None),
+           ("echo", lambda x: W.echo_request(x, b"config"), W.ECHO_REPLY, None)]
+  raws = []
+  for i, (req, build, rtype, stype) in enumerate(plan):
+    x = 0x52000000 + i
+    if req == "port-mod" and state["hw"] is None: continue          # the features reply did not tell the port's address
+    raw = build(x); raws.append(raw)
+    try:
+      st.feed(raw)
+    except Exception as e:
+      v(req, "escaped-exception", "exception escaped the switch's read loop: %s: %s" % (type(e).__name__, e)); break
+    rep.transitions += 1
+    out = st.drain(); total += out
+    msgs, rest = W.split(out)
+    if rest or any(W.parse_hdr(m)[0] != W.VERSION or W.parse_hdr(m)[1] >= len(W.TYPE_NAMES) for m in msgs):
+      v(req, "garbled-output", "the switch wrote bytes that do not frame as OpenFlow messages"); break
+    if st.worker.closed or st.worker._shutdown_send:
+      v(req, "connection-dropped", "the switch closed the connection"); break
+    replies = coalesce([d for d in (W.decode(m) for m in msgs) if d["type"] not in W.ASYNC_TYPES])
+    if rtype is None:
+      if replies: v(req, "unexpected-reply", "a port-mod naming the port's own address was answered with %s" % [r["t"] for r in replies])
+      continue
+    # port statistics of more ports than one message holds come in parts
+    over = req == "stats-port-all" and 12 + 104 * len(want_ports) > MAX_MSG
+    if not replies:
+      if over: bad.append(("%s:stats-reply-over-64K:no-reply" % PID, "%r: %s produced neither a (multi-part) reply nor an error: %d ports"
+                           % (desc, req, len(want_ports))))
+      else: v(req, "no-reply", "%s (xid %#x) produced neither a reply nor an error" % (req, x))
+      continue
+    if len(replies) > 1:
+      v(req, "multiple-replies", "%s produced %s" % (req, [r["t"] for r in replies])); continue
+    r = replies[0]
+    if r["xid"] != x: v(req, "wrong-xid", "%s sent with xid %#x answered with xid %#x" % (req, x, r["xid"]))
+    if r["type"] != rtype or (stype is not None and r.get("stype") != stype):
+      v(req, "wrong-reply-type", "%s answered with %s/%s" % (req, r["t"], r.get("stype"))); continue
+    if r["type"] == W.STATS_REPLY and (r["flags"] & W.OFPSF_REPLY_MORE):
+      v(req, "stats-more-without-last-part", "the last statistics reply has OFPSF_REPLY_MORE set")
+    if req == "features":
+      state["features"] += 1
+      if (r["len"] - 32) % 48:
+        v(req, "features-data:port-array", "the port array of the features reply has %d bytes" % (r["len"] - 32)); continue
+      if r["dpid"] != exp["dpid"] or r["n_buffers"] != exp["max_buffers"] or r["n_tables"] != 1:
+        v(req, "features-data:switch-desc", "dpid %#x n_buffers %d n_tables %d, configured dpid %#x and %d buffers"
+          % (r["dpid"], r["n_buffers"], r["n_tables"], exp["dpid"], exp["max_buffers"]))
+      got = [q["port_no"] for q in r["ports"]]
+      if not ports_ok(got):
+        v(req, "features-data:port-list", "ports %s, the switch has %s" % (sorted(got)[:8], sorted(want_ports)[:8]))
+      for q in r["ports"]:
+        name, hw = exp["ports"].get(q["port_no"], (None, None))
+        if name is not None and not name_field_ok(q["name"], name):
+          v(req, "features-data:port-name", "port %d is called %r, configured %r" % (q["port_no"], q["name"], name))
+        if hw is not None and q["hw_addr"] != hw:
+          v(req, "features-data:port-hw-addr", "port %d has address %r, configured %r" % (q["port_no"], q["hw_addr"], hw))
+        if q["port_no"] == subj:
+          if state["features"] == 1: state["hw"] = q["hw_addr"]; state["config"] = q["config"]
+          elif q["config"] != state.get("config", 0) | W.OFPPC_NO_FLOOD:
+            v(req, "features-data:port-config", "port %d config %#x after a port-mod setting NO_FLOOD on %#x" % (subj, q["config"], state.get("config", 0)))
+    elif req == "get-config":
+      if (r["miss_send_len"], r["flags"]) != (exp["miss_send_len"], 0):
+        v(req, "config-data", "get-config reply %r, configured miss_send_len %d" % ((r["miss_send_len"], r["flags"]), exp["miss_send_len"]))
+    elif req == "stats-desc":
+      if "desc" not in r: v(req, "stats-body", "desc stats body has %d bytes, specification says 1056" % len(r["body"]))
+    elif req == "stats-table":
+      if not r["wellformed"] or len(r["tables"]) != 1 or r["tables"][0]["max_entries"] != exp["max_entries"] or r["tables"][0]["active_count"] != 0:
+        v(req, "stats-body", "table stats %r, configured max_entries %d" % (r.get("tables"), exp["max_entries"]))
+    elif req == "stats-port-all":
+      got = [q["port_no"] for q in r["ports"]]
+      if not r["wellformed"] or not ports_ok(got):
+        v(req, "stats-body:port-list", "port stats for ports %s, the switch has %s" % (sorted(got)[:8], sorted(want_ports)[:8]))
+    elif req == "stats-port-one":
+      if [q["port_no"] for q in r["ports"]] != [subj]:
+        v(req, "stats-body", "port stats for port %d lists %s" % (subj, [q["port_no"] for q in r["ports"]]))
+    elif req == "echo":
+      if r["body"] != b"config": v(req, "echo-body", "echo reply body differs from the request body")
+  else:
+    # differential: a pristine twin given the same bytes in one read must write the same stream
+    try:
+      st2, _, _ = _config_stack(desc); st2.drain()
+      st2.feed(b"".join(raws)); rep.transitions += 1
+      if not bad and norm_stream(st2.drain()) != norm_stream(total):
+        v("batch", "segmentation-changes-replies", "replies differ when the requests arrive in one read")
+    except Exception as e:
+      v("batch", "escaped-exception", "exception escaped the switch's read loop: %s: %s" % (type(e).__name__, e))
+  return bad, (api, norm_stream(setup), norm_stream(total))
+
+
+def _one_config (desc, rep):
+  bad, outcome = check_config(desc, rep)
+  rep.evaluations += 1
+  rep.outcome((desc, outcome, tuple(k for k, _ in bad)))
+  for k, what in bad:
+    rep.violation(k, what, dict(config=list(desc[:3]) + [[list(p) for p in desc[3]]]))
+  rep.state_count += 1
+
+
+def first_difference (names, stream_a, stream_b):
+  """Key class of the request whose answer is the first message in which two reply streams of one history differ (the
+  last request if the message cannot be attributed by its xid)."""
+  ma = W.split(stream_a or b"")[0]; mb = W.split(stream_b or b"")[0]
+  xs = xids_for(len(names))
+  for i in range(max(len(ma), len(mb))):
+    pair = (ma[i] if i < len(ma) else None, mb[i] if i < len(mb) else None)
+    if pair[0] == pair[1]: continue
+    for m in pair:
+      if m is not None and len(m) >= 8 and W.parse_hdr(m)[1] not in W.ASYNC_TYPES and W.parse_hdr(m)[3] in xs:
+        return keyname(names[xs.index(W.parse_hdr(m)[3])])
+    break
+  return keyname(names[-1])
+
+
 def _one (names, reqs, rep, xids=None):
   bad, stream = check_history(names, reqs, rep, _stack, xids=xids)
   rep.evaluations += 1
@@ -623,14 +980,14 @@ def _one (names, reqs, rep, xids=None):
     rep.evaluations += 1
     if bad2: bad = bad2
     elif stream2 != stream:
-      bad = [("%s:%s:segmentation-changes-replies" % (PID, keyname(names[-1])), "replies differ when the requests arrive in one read")]
+      bad = [("%s:%s:segmentation-changes-replies" % (PID, first_difference(names, stream, stream2)), "replies differ when the requests arrive in one read")]
     elif refused or any(reqs[n][1][0] in ("error", "answer") for n in names):
       # histories with a refused request also with every message split over two reads
       bad3, stream3 = check_history(names, reqs, rep, _stack, batch="split", raws=check_history.last_raws)
       rep.evaluations += 1
       if bad3: bad = bad3
       elif stream3 != stream:
-        bad = [("%s:%s:segmentation-changes-replies:split" % (PID, keyname(names[-1])), "replies differ when every request arrives split over two reads")]
+        bad = [("%s:%s:segmentation-changes-replies:split" % (PID, first_difference(names, stream, stream3)), "replies differ when every request arrives split over two reads")]
   rep.outcome((names, stream, tuple(k for k, _ in bad)))
   for k, what in bad:
     rep.violation(k, what, dict(history=list(names)))
@@ -646,11 +1003,14 @@ def _worker (histories):
   reqs = Reqs((n, (f, e)) for n, f, e in R)
   rep = Report(PID, "model_checking")
   rep.state_count = 0
+  only = family_only([n for n, f, e in R])
   for names in histories:
-    if names and names[0] == "*":
+    if names and names[0] == "#config":
+      _one_config(names[1], rep)
+    elif names and names[0] == "*":
       # a prefix standing for all its one-request extensions (keeps the work list of the thorough tier small)
       for n, f, e in R:
-        if n not in PAIRED: _one(tuple(names[1:]) + (n,), reqs, rep)
+        if n not in PAIRED and n not in only: _one(tuple(names[1:]) + (n,), reqs, rep)
     elif names and names[0] == "#edge":
       _one(tuple(names[1:]), reqs, rep, xids="edge")
     else:
@@ -700,7 +1060,12 @@ PAIRED = ("port-mod-2-set-PORT_DOWN", "port-mod-2-clear-PORT_DOWN", "port-mod-2-
           "port-mod-2-set-NO_FLOOD", "port-mod-2-clear-NO_FLOOD", "port-mod-1-set-NO_RECV", "port-mod-1-clear-NO_RECV",
           "port-mod-1-set-PORT_DOWN", "port-mod-1-clear-PORT_DOWN", "port-mod-1-clear-all", "port-mod-2-zero-hw",
           "port-mod-2-other-hw", "packet-out-flood", "packet-out-all", "packet-out-buffer-0", "packet-out-buffer-5",
-          "packet-out-buffer-fffffffe", "flow-add-buffer-0")
+          "packet-out-buffer-fffffffe", "flow-add-buffer-0",
+          # round 9: long action lists, message types only a switch sends, other header versions
+          "flow-add-4085-actions", "flow-add-other-4085-actions",
+          "s2c-features-reply", "s2c-features-reply-no-ports", "s2c-get-config-reply", "s2c-packet-in", "s2c-flow-removed",
+          "s2c-port-status", "s2c-stats-reply-desc", "s2c-stats-reply-flow-empty", "s2c-barrier-reply", "s2c-queue-get-config-reply",
+          "error-from-controller", "version-0-echo-empty", "version-2-features", "version-4-barrier", "version-ff-flow-add")
 
 # Port family: port-mods that set / clear the bits with a visible effect (accepted and refused ones), the requests whose
 # outcome depends on port configuration, and the read-backs (features reply, port and table counters, barrier).
@@ -709,6 +1074,43 @@ PORT_FAMILY = PAIRED[:13] + ("port-mod", "port-mod-absent", "features", "barrier
 
 PM_TAIL = ("features", "packet-out-flood", "packet-out-all", "packet-out", "stats-port-all")
 PM_ABSENT = (99, 0, 5, 0xff00, 0xfffe, 0xffff)          # no such port: arbitrary, 0, first past the last, OFPP_MAX, LOCAL, NONE
+
+
+# Long-action-list family: flow-mods whose statistics entries are large, deletes, and the read-backs of the table.
+BIG_FAMILY_TAIL = ("flow-delete-all", "flow-delete-in1", "flow-add-other", "stats-flow", "stats-flow-in2", "stats-aggregate",
+                   "stats-table", "barrier")
+VERSION_TAIL = ("echo-empty", "stats-flow", "barrier")
+
+
+def family_only (names):
+  """Members of the long-action-list and wrong-version families that take part in their own families only (the others
+  are in PAIRED: in all pairs with every request)."""
+  return tuple(n for n in names if (n.startswith("version-") or (n.startswith("flow-add-") and n.endswith("-actions"))) and n not in PAIRED)
+
+
+def big_histories (cfg, names):
+  """All sequences of <=3 requests over the long-action-list family (quick: the 4084 / 4085 / 8180 values at most twice)."""
+  bigs = [n for n in names if n.startswith("flow-add-") and n.endswith("-actions")]
+  if cfg.quick: bigs = [n for n in bigs if "-8179-" not in n and n != "flow-add-other-8180-actions"]
+  fam = tuple(bigs) + BIG_FAMILY_TAIL
+  hs = []
+  for d in (1, 2, 3):
+    for h in itertools.product(fam, repeat=d):
+      if any(n in bigs for n in h) and h[-1] not in bigs: hs.append(h)          # ends with a read-back / delete
+  return hs, len(fam)
+
+
+def version_histories (names):
+  """Every (version, request) of the wrong-version family: as the first message; after a hello; after an echo; after a
+  features request and a flow-mod; each followed by read-backs."""
+  hs = []
+  for n in names:
+    if not n.startswith("version-"): continue
+    hs.append((n,) + VERSION_TAIL)
+    hs.append(("hello", n) + VERSION_TAIL)
+    hs.append(("echo-empty", n) + VERSION_TAIL)
+    hs.append(("features", "flow-add", n) + VERSION_TAIL)
+  return hs
 
 
 def pm_lattice (cfg):
@@ -743,11 +1145,12 @@ def pm_histories (cfg):
 
 
 def flow_family (R):
-  return tuple(n for n, f, e in R if e[0] == "flow" and n not in PAIRED) + FLOW_FAMILY_EXTRA
+  return tuple(n for n, f, e in R if e[0] == "flow" and n not in PAIRED and not n.endswith("-actions")) + FLOW_FAMILY_EXTRA
 
 
 def histories (cfg, R):
-  names = [n for n, f, e in R]
+  every = [n for n, f, e in R]
+  names = [n for n in every if n not in family_only(every)]
   depth = 3                                   # deepest full product (quick and thorough)
   main = [n for n in names if n not in EXTENDED and n not in PAIRED]
   ff = flow_family(R)
@@ -775,15 +1178,22 @@ def histories (cfg, R):
   n_pf = len(hs) - n_full - n_ff - n_bf
   pm = pm_histories(cfg)
   add(pm)
+  big, n_bigfam = big_histories(cfg, every)
+  add(big)
+  ver = version_histories(every)
+  add(ver)
+  cf = [("#config", c) for c in configs(cfg)]
   active = [n for n in names if n not in INERT and n not in PAIRED]
   deeper = []
   if not cfg.quick:
     # one request deeper than the full product: the first `depth` requests among the state-affecting ones
     deeper = [("*",) + p for p in itertools.product(active, repeat=depth)]
-  longs = long_history(names)
+  # (a message with another version may end the connection: not in the long histories)
+  longs = long_history([n for n in names if not n.startswith("version-")])
   # boundary xids: every history of <= depth-1 requests and the long ones once more
   edge = [("#edge",) + h for d in range(1, depth) for h in itertools.product(names, repeat=d)] + [("#edge",) + h for h in longs]
-  return hs + deeper + longs + edge, dict(depth=depth, main=len(main), full=n_full, active=len(active),
+  return hs + deeper + longs + edge + cf, dict(depth=depth, main=len(main), full=n_full, active=len(active), names=len(names),
+                                          n_big=len(big), bigfam=n_bigfam, n_ver=len(ver), n_cfg=len(cf),
                                           deeper=len(deeper) * (len(names) - len(PAIRED)),
                                           ff=len(ff), ff_depth=ff_depth, n_ff=n_ff, bf_depth=bf_depth, n_bf=n_bf, longs=len(longs),
                                           pf_depth=pf_depth, n_pf=n_pf, n_pm=len(pm), pm_lattice=len(pm) // 3, edge=len(edge))
@@ -793,8 +1203,10 @@ def run (cfg):
   rep = Report(PID, "model_checking")
   R = requests()
   names = [n for n, f, e in R]
-  assert set(INERT) | set(EXTENDED) | set(BUFFER_FAMILY) | set(FLOW_FAMILY_EXTRA) | set(PAIRED) | set(PORT_FAMILY) | set(PM_TAIL) <= set(names)
+  assert (set(INERT) | set(EXTENDED) | set(BUFFER_FAMILY) | set(FLOW_FAMILY_EXTRA) | set(PAIRED) | set(PORT_FAMILY) | set(PM_TAIL)
+          | set(BIG_FAMILY_TAIL) | set(VERSION_TAIL) | set(VERSION_BASES)) <= set(names)
   hs, info = histories(cfg, R)
+  names = names[:info["names"]]          # (only the length is used below: the requests that take part in all pairs)
   rep.rule = ("all sequences of <=%d requests over %d controller-to-switch messages (distinct xids) and all sequences of %d over the %d of them "
               "that are not flow-mod / port-mod / buffer-id variants of an included plain form%s; "
               "all sequences of <=%d requests over the %d-request flow family (every flow-mod of the alphabet: 5 commands + an unknown one x matches "
@@ -812,7 +1224,16 @@ def run (cfg):
               "each history is sent as spec-encoded bytes message-by-message, again as one read and (histories with a refused request) with every "
               "message split over two reads; plus %d histories of 40 covering every ordered pair; all histories of <=%d requests and the histories of 40 "
               "once more with boundary xids (0, 0xffffffff, 0x80000000, 0x7fffffff, 1, repeating); "
-              "distinct = distinct (history, reply byte stream, verdict)"
+              "%d histories of <=3 requests over the %d-request long-action-list family (flow-mods with %s output actions: two / one statistics "
+              "entries just fit / just exceed one 64 KB reply; deletes, flow / aggregate / table statistics; multi-part replies count as one); "
+              "%d wrong-version histories (header version %s x %s, each as the first message | after hello | after echo | after features + flow-mod, "
+              "followed by echo, flow statistics, barrier); well-formed messages of every switch-to-controller type in all pairs; "
+              "%d switch configurations built through the switch's API (ports=N for N in %s; one port of number %s x name {generated, ASCII of 1 / 15 / "
+              "16 characters, 15 / 16 / 8 / 16 characters with 1 / 1 / 8 / 16 outside ASCII} made by generate_port | ofp_phy_port() | add_port(port) on "
+              "the connected switch; add_port(number); delete_port(number | port) and delete + add of port 1 / 2 / 4; constructor parameters %s), each "
+              "asked features, get-config, desc / table / port statistics (all ports, the one port), a port-mod with the address the features reply "
+              "gave + features again, barrier, echo, message by message and in one read, compared with the configuration; "
+              "distinct = distinct (history | configuration, reply byte stream, verdict)"
               % (info["depth"] - 1, len(names), info["depth"], info["main"],
                  "" if cfg.quick else ", and all sequences of %d requests whose first %d are among the %d state-affecting ones"
                  % (info["depth"] + 1, info["depth"], info["active"]),
@@ -820,13 +1241,17 @@ def run (cfg):
                  info["pf_depth"], len(PORT_FAMILY), info["pm_lattice"],
                  "every non-empty mask over the 7 defined config bits with all / none of its bits set" if cfg.quick else
                  "every non-empty mask over the 7 defined config bits with every config inside the mask",
-                 "/".join("%#x" % p for p in PM_ABSENT), info["longs"], info["depth"] - 1))
+                 "/".join("%#x" % p for p in PM_ABSENT), info["longs"], info["depth"] - 1,
+                 info["n_big"], info["bigfam"], "/".join(str(n) for n in BIG_ACTS), info["n_ver"], "/".join("%#x" % v for v in VERSIONS),
+                 "/".join(VERSION_BASES), info["n_cfg"], "/".join(str(n) for n in CFG_COUNTS), "/".join(str(n) for n in CFG_PORT_NOS),
+                 "; ".join("%s %s" % (k, "/".join("%#x" % v for v in vs)) for k, vs in CFG_PARAMS)))
   rep.bound = dict(depth=info["depth"], alphabet=len(names), deepest_product_alphabet=info["main"], product_histories=info["full"],
                    deeper_layer_histories=info["deeper"], flow_family_depth=info["ff_depth"], flow_family_alphabet=info["ff"],
                    flow_family_histories=info["n_ff"], buffer_family_depth=info["bf_depth"], buffer_family_alphabet=len(BUFFER_FAMILY),
                    buffer_family_histories=info["n_bf"], table_capacity=CAPACITY, buffers=4,
                    port_family_depth=info["pf_depth"], port_family_alphabet=len(PORT_FAMILY), port_family_histories=info["n_pf"],
-                   port_mod_lattice=info["pm_lattice"], port_mod_lattice_histories=info["n_pm"], boundary_xid_histories=info["edge"])
+                   port_mod_lattice=info["pm_lattice"], port_mod_lattice_histories=info["n_pm"], boundary_xid_histories=info["edge"],
+                   long_action_list_histories=info["n_big"], wrong_version_histories=info["n_ver"], switch_configurations=info["n_cfg"])
   rep.assumptions = ["error codes asserted only where OpenFlow 1.0 names one", "HELLO/PACKET_IN/PORT_STATUS/FLOW_REMOVED are asynchronous, not replies",
                      "a flow-mod answered with a buffer error (BUFFER_UNKNOWN/BUFFER_EMPTY) leaves the table contents undetermined until the next delete-all: "
                      "OpenFlow 1.0 does not say whether the flow-mod is still carried out",
@@ -842,10 +1267,39 @@ def run (cfg):
                      "OFPPC_NO_FLOOD ports; a packet-out to OFPP_TABLE whose in_port is down or has OFPPC_NO_RECV leaves the table/port counters unjudged",
                      "the initial port configuration / state / names / features and the switch capabilities are the switch's choice: taken from the first "
                      "features reply of a pristine twin of the switch under test",
-                     "the contents of asynchronous port-status messages are not judged, only used as the announced link state"]
+                     "the contents of asynchronous port-status messages are not judged, only used as the announced link state",
+                     "a statistics reply whose entries do not fit one 64 KB message comes in parts (OFPSF_REPLY_MORE), counted as one reply; if a single "
+                     "entry fits no message, any one reply or error is accepted; a flow-mod with a long action list may be refused with "
+                     "BAD_ACTION/TOO_MANY (then it installs nothing)",
+                     "a message whose header carries another version is outside the 13 message types the statement quantifies over (its framing "
+                     "cannot be relied on): it is answered with exactly one error (BAD_REQUEST/BAD_VERSION with its xid; before the switch has taken "
+                     "any version-1 message as a request also HELLO_FAILED/INCOMPATIBLE) or the switch gives the connection up (shutdown requested or "
+                     "closed; whether that is carried out is judged by C10); silence on a connection that stays open is a violation; if the "
+                     "connection stays open the later requests are judged as usual",
+                     "a well-formed message of a type only a switch sends is an unsupported request (BAD_REQUEST/BAD_TYPE); an ERROR message from the "
+                     "controller is answered with nothing or a BAD_REQUEST error",
+                     "switch configurations: generated port names / addresses are the switch's choice (not judged); a name with characters outside "
+                     "ASCII may be encoded in Latin-1 or UTF-8 and clipped to the 16-byte field; when the switch's own API refused a call with an "
+                     "exception, whether the port exists is not judged, but every request must still be answered"]
   for r in pmap(_worker, split(hs, cfg.workers * 4), cfg.workers, seed=cfg.seed):
     rep.merge(r)
+  fold_config_keys(rep, configs(cfg))
   return rep
+
+
+def fold_config_keys (rep, cs):
+  """A clause of the configuration family that fails in most configuration classes does not depend on the configuration:
+  one key ("...:most-configurations") instead of one per class."""
+  classes = sorted(set(config_class(c) for c in cs))
+  groups = {}
+  for k in rep.violations:
+    if k.startswith(PID + ":config:") and k.rsplit(":", 1)[1] in classes: groups.setdefault(k.rsplit(":", 1)[0], []).append(k)
+  for prefix, ks in groups.items():
+    if 2 * len(ks) <= len(classes): continue
+    ks.sort(key=lambda k: classes.index(k.rsplit(":", 1)[1]))
+    first = dict(rep.violations[ks[0]]); first["count"] = sum(rep.violations[k]["count"] for k in ks)
+    for k in ks: del rep.violations[k]
+    rep.violations[prefix + ":most-configurations"] = first
 
 
 def replay (cfg, data):
@@ -853,6 +1307,11 @@ def replay (cfg, data):
   boot()
   reqs = Reqs((n, (f, e)) for n, f, e in requests())
   rep = Report(PID, "model_checking")
+  if "config" in data:
+    c = data["config"]
+    desc = (c[0], c[1], c[2], tuple(tuple(p) for p in c[3]))
+    bad, outcome = check_config(desc, rep)
+    return bool(bad), "configuration: %r\n%s" % (desc, "\n".join("%s: %s" % b for b in bad))
   bad, stream = check_history(tuple(data["history"]), reqs, rep, _stack, xids=data.get("xids"))
   if not bad and not data.get("xids"):
     bad, s2 = check_history(tuple(data["history"]), reqs, rep, _stack, batch=True, raws=check_history.last_raws)
